@@ -1,12 +1,15 @@
 import OZ.DrvUtil
-import OZ.Model.Timelock
+import OZ.Model.TimelockMon
 /-
 Driver for C08 (timelock). `op` runs the model OZ.Timelock on the op lines of
 harness/src/bin/c08.rs and prints the model's observation in the harness's format.
 
-`mon` is the monitor: it never calls the model. It keeps its own ghost log of the accepted
+`mon` is the monitor: it never calls the model. Here it only PARSES the op line and the
+implementation's observation (`parseLine`, `parseObs`) and calls `OZ.Timelock.Mon.checkCore`
+(OZ/Model/TimelockMon.lean), which is proved sound in OZ/Props/C08Mon.lean
+(`monitor_accepts_every_model_trace`). The core keeps its own ghost log of the accepted
 schedule / cancel / execute calls seen on the IMPLEMENTATION trace (keyed by the canonical
-text of the operation tuple) and checks, on every implementation observation,
+operation tuple) and checks, on every implementation observation,
   * each accepted execution against the property's conditions (scheduled with delay ≥ the
     minimum delay then in force, not cancelled since, delay elapsed, predecessor zero or
     executed, never executed before), each accepted schedule / cancel likewise,
@@ -19,11 +22,9 @@ text of the operation tuple) and checks, on every implementation observation,
   * id-equality ⇔ tuple-equality for every defined operation.
 -/
 namespace OZ.Drv.C08
-open OZ.Drv OZ.Timelock OZ.Host
+open OZ.Drv OZ.Timelock OZ.Timelock.Mon OZ.Host
 
-/-- the correspondence is validated for ledger sequences up to `u32::MAX -
-TIMELOCK_EXTEND_AMOUNT`; beyond, the host refuses `extend_ttl` (the harness never goes there) -/
-def HORIZON : Nat := U32_MAX - 518400
+-- `HORIZON` (u32::MAX - TIMELOCK_EXTEND_AMOUNT) is defined in OZ/Model/TimelockMon.lean
 
 structure M where
   s : State
@@ -111,29 +112,46 @@ def stepLine (m : M) (line : String) : M × String :=
         | .ok s' => let m' := { m with s := s' }; (m', s!"ok {showState m'}")
         | .error _ => (m, s!"err {showState m}")
 
-/-! ### the monitor (implementation side only) -/
+/-! ### the monitor (implementation side only): parsing, then `OZ.Timelock.Mon.checkCore`
 
-inductive G where
-  | unset
-  | pending (l d : Nat)
-  | done
-  deriving DecidableEq
+Not covered by the soundness theorem (string level, this file): `parseLine`, `parseRefM`,
+`parseObs`, `parseCall`, and the `site=timelock.parse unparsable observation` alarm. Everything
+else the monitor does is `checkCore`. -/
 
-structure IdObs where
-  code : String
-  ledger : Nat
-  flags : String
-  deriving DecidableEq
+def parseRefM (r : String) : Ref :=
+  if r = "z" then .z
+  else if r.startsWith "r" then
+    match (r.drop 1).toString.toNat? with
+    | some n => .raw n
+    | none => .bad
+  else
+    match (r.drop 1).toString.toNat? with
+    | some k => .op k
+    | none => .bad
 
-structure Obs where
-  ok : Bool
-  eq : Option (List Nat)
-  now : Nat
-  min : Option Nat
-  st : List IdObs
-  calls : List String
-  stRaw : String
-  callsRaw : String
+def parseCallLine (kind : String) (rest : List String) : CallLine :=
+  match kind with
+  | "advance" => .advance ((kvNat? rest "n").getD 0)
+  | "min" => .min (kvNat? rest "d")
+  | "sched" => .sched ((kvNat? rest "k").getD 0) ((kvNat? rest "d").getD 0)
+  | "cancel" => .cancel (parseRefM ((kv? rest "i").getD "?"))
+  | "exec" => .exec ((kvNat? rest "k").getD 0) ((kvNat? rest "callok").getD 0)
+  | "setexec" => .setexec ((kvNat? rest "k").getD 0)
+  | other => .other other ((kvNat? rest "k").getD 0)
+
+def parseLine (ws : List String) : Line :=
+  let kind := (ws.drop 1).head?.getD ""
+  let rest := ws.drop 2
+  if kind = "def" then
+    match kvNat? rest "t", kvNat? rest "f", kv? rest "a", kv? rest "p", kvNat? rest "s" with
+    | some t, some f, some a, some p, some s => .defn t f (parseArgs a) (parseRefM p) s
+    | _, _, _, _, _ => .badDef
+  else .call (parseCallLine kind rest)
+
+def parseCall (t : String) : Option CallObs :=
+  match t.splitOn ":" with
+  | [c, f, a] => do pure { cnt := (← c.toNat?), fn := f.toNat?, a0 := a.toNat? }
+  | _ => none
 
 def parseObs (line : String) : Option Obs :=
   match words line with
@@ -146,169 +164,21 @@ def parseObs (line : String) : Option Obs :=
       match t.splitOn ":" with
       | [c, l, f] => do pure { code := c, ledger := (← l.toNat?), flags := f : IdObs }
       | _ => none)
-    pure { ok := tag = "ok", eq := (kv? rest "eq").map natList, now, min := minS.toNat?, st,
-           calls := callsRaw.splitOn ",", stRaw, callsRaw }
+    let calls ← (callsRaw.splitOn ",").mapM parseCall
+    pure { ok := tag = "ok", eq := (kv? rest "eq").map natList, now, min := minS.toNat?, st, calls }
   | _ => none
-
-structure Mon where
-  keys : List String                 -- canonical tuple text of each defined operation
-  tuples : List (Nat × Nat × Nat)    -- (target, fn, first arg) of each defined operation
-  preds : List String                -- canonical key of each operation's predecessor
-  ghost : List (String × G)          -- newest binding first
-  prev : Option Obs
-  start : Nat
-
-def Mon.get (m : Mon) (k : String) : G :=
-  match m.ghost.find? (fun p => p.1 = k) with
-  | some (_, g) => g
-  | none => .unset
-
-def Mon.set (m : Mon) (k : String) (g : G) : Mon := { m with ghost := (k, g) :: m.ghost }
-
-def refKey (keys : List String) (r : String) : String :=
-  if r = "z" then "raw0"
-  else if r.startsWith "r" then "raw" ++ (r.drop 1).toString
-  else match (r.drop 1).toString.toNat? with
-    | some k => keys[k]?.getD "?"
-    | none => "?"
-
-def satU32 (a b : Nat) : Nat := if a + b > 4294967295 then 4294967295 else a + b
-
-/-- what the property prescribes for an id at ledger `now`: (code, ledger value, flags) -/
-def expected (g : G) (now : Nat) : IdObs :=
-  match g with
-  | .unset => ⟨"U", 0, "0000"⟩
-  | .done => ⟨"D", 1, "1001"⟩
-  | .pending l d =>
-    if l + d ≤ now ∨ (l + d > 4294967295 ∧ now = 4294967295) then ⟨"R", satU32 l d, "1110"⟩
-    else ⟨"W", satU32 l d, "1100"⟩
-
-def universeKeys (m : Mon) : List String := m.keys ++ ["raw0", "raw1"]
-
-def checkStates (m : Mon) (o : Obs) : Option String :=
-  let ks := universeKeys m
-  if ks.length ≠ o.st.length then some s!"site=timelock.universe {o.st.length} ids reported, {ks.length} expected"
-  else
-    let bad := (ks.zip o.st).filter (fun (k, io) => expected (m.get k) o.now ≠ io)
-    match bad with
-    | [] => none
-    | (k, io) :: _ =>
-      let ex := expected (m.get k) o.now
-      some s!"site=timelock.state id {k}: reported {io.code}:{io.ledger}:{io.flags} but the accepted history prescribes {ex.code}:{ex.ledger}:{ex.flags} at ledger {o.now}"
 
 def check (m : Mon) (opl obs : String) : Mon × Option String :=
   match parseObs obs with
   | none => (m, some s!"site=timelock.parse unparsable observation {obs}")
-  | some o =>
-    let ws := words opl
-    let kind := (ws.drop 1).head?.getD ""
-    let rest := ws.drop 2
-    let prevNow := match m.prev with | some p => p.now | none => m.start
-    let prevMin := match m.prev with | some p => p.min | none => none
-    let prevCalls := match m.prev with | some p => p.callsRaw | none => "0:-:-,0:-:-"
-    let fin (m' : Mon) (f : Option String) : Mon × Option String :=
-      let m'' := { m' with prev := some o }
-      match f with
-      | some e => (m'', some e)
-      | none => (m'', checkStates m'' o)
-    if o.now < 2 then fin m (some "site=timelock.regime ledger below 2") else
-    if kind = "def" then
-      match kvNat? rest "t", kvNat? rest "f", kv? rest "a", kv? rest "p", kvNat? rest "s" with
-      | some t, some f, some a, some p, some s =>
-        let pk := refKey m.keys p
-        let key := s!"op({t},{f},{a},{pk},{s})"
-        let same := (List.range m.keys.length).filter (fun j => m.keys[j]? = some key)
-        let m' := { m with keys := m.keys ++ [key], tuples := m.tuples ++ [(t, f, (parseArgs a).headD 0)],
-                           preds := m.preds ++ [pk] }
-        if o.eq ≠ some same then
-          fin m' (some s!"site=timelock.id operation {key}: ids equal to those of definitions {o.eq.getD []}, tuples equal to {same}")
-        else fin m' none
-      | _, _, _, _, _ => fin m (some "site=timelock.parse bad def line")
-    else if ¬ o.ok then
-      -- a rejected call changes nothing (the ledger sequence included)
-      let changed := match m.prev with
-        | some p => p.stRaw != o.stRaw || p.min != o.min || p.callsRaw != o.callsRaw || p.now != o.now
-        | none => false
-      fin m (if changed then some "site=timelock.rollback a rejected call changed the observable state" else none)
-    else
-      let callsSame : Option String :=
-        if o.callsRaw ≠ prevCalls then some s!"site=timelock.calls a target was invoked by `{kind}`" else none
-      let stable : Option String :=
-        if o.now ≠ prevNow then some s!"site=timelock.now the ledger moved during `{kind}`"
-        else if kind ≠ "min" ∧ o.min ≠ prevMin then some s!"site=timelock.min the minimum delay changed during `{kind}`"
-        else none
-      match kind with
-      | "advance" =>
-        let n := (kvNat? rest "n").getD 0
-        -- across an idle gap nothing stored may change: only Waiting → Ready, by time, same ledger value
-        let prevSt := match m.prev with | some p => p.st | none => []
-        let lost := (List.range prevSt.length).filterMap (fun i =>
-          match prevSt[i]?, o.st[i]? with
-          | some a, some b =>
-            if a = b then none
-            else if a.code = "W" ∧ b.code = "R" ∧ a.ledger = b.ledger ∧ b.ledger ≤ o.now then none
-            else some s!"site=timelock.idle.lost id {(universeKeys m)[i]?.getD "?"}: {a.code}:{a.ledger} before an idle gap of {n} ledgers, {b.code}:{b.ledger} after it"
-          | _, _ => none)
-        fin m (if o.now ≠ prevNow + n then some "site=timelock.advance ledger not advanced as requested"
-               else if o.min ≠ prevMin then some s!"site=timelock.idle.lost the minimum delay changed over an idle gap of {n} ledgers"
-               else match lost with
-                 | w :: _ => some w
-                 | [] => callsSame)
-      | "min" =>
-        fin m (if o.min ≠ kvNat? rest "d" then some "site=timelock.min minimum delay not stored" else stable.orElse (fun _ => callsSame))
-      | "sched" =>
-        let k := (kvNat? rest "k").getD 0
-        let d := (kvNat? rest "d").getD 0
-        let key := m.keys[k]?.getD "?"
-        let f : Option String :=
-          match m.get key, prevMin with
-          | .unset, some mn =>
-            if d < mn then some s!"site=timelock.schedule.delay accepted delay {d} below the minimum delay {mn} in force" else none
-          | .unset, none => some "site=timelock.schedule.nomin schedule accepted although no minimum delay is set"
-          | .done, _ => some s!"site=timelock.schedule.done {key} was re-scheduled after being executed"
-          | .pending _ _, _ => some s!"site=timelock.schedule.twice {key} was scheduled while pending"
-        fin (m.set key (.pending prevNow d)) (f.orElse (fun _ => stable.orElse (fun _ => callsSame)))
-      | "cancel" =>
-        let key := refKey m.keys ((kv? rest "i").getD "?")
-        let f : Option String :=
-          match m.get key with
-          | .pending _ _ => none
-          | .done => some s!"site=timelock.cancel.done {key} was cancelled after being executed"
-          | .unset => some s!"site=timelock.cancel.unset {key} was cancelled although not pending"
-        fin (m.set key .unset) (f.orElse (fun _ => stable.orElse (fun _ => callsSame)))
-      | _ =>
-        -- exec / setexec
-        let k := (kvNat? rest "k").getD 0
-        let key := m.keys[k]?.getD "?"
-        let pk := m.preds[k]?.getD "?"
-        let f : Option String :=
-          match m.get key with
-          | .unset => some s!"site=timelock.execute.unscheduled {key} executed although not scheduled (or cancelled since)"
-          | .done => some s!"site=timelock.execute.twice {key} executed a second time"
-          | .pending l d =>
-            if ¬ (l + d ≤ o.now ∨ (l + d > 4294967295 ∧ o.now = 4294967295)) then
-              some s!"site=timelock.execute.early {key} scheduled at {l} with delay {d} executed at ledger {o.now}"
-            else if pk ≠ "raw0" ∧ m.get pk ≠ .done then
-              some s!"site=timelock.execute.predecessor {key} executed before its predecessor {pk}"
-            else none
-        let fc : Option String :=
-          if kind = "exec" then
-            let (t, fn, a0) := m.tuples[k]?.getD (9, 9, 9)
-            let pc := prevCalls.splitOn ","
-            let cnt := fun (s : String) => ((s.splitOn ":").headD "0").toNat?.getD 0
-            let expd := (List.range 2).map (fun i =>
-              if i = t then s!"{cnt (pc[i]?.getD "0") + 1}:{fn}:{a0}" else pc[i]?.getD "?")
-            if o.calls ≠ expd then some s!"site=timelock.execute.call target calls are {o.callsRaw}, expected exactly one more call ({t},{fn},{a0}) after {prevCalls}" else none
-          else callsSame
-        fin (m.set key .done) (f.orElse (fun _ => stable.orElse (fun _ => fc)))
+  | some o => checkCore m (parseLine (words opl)) o
 
 def machine : Machine where
   σ := M
   init := initM
   op := stepLine
   μ := Mon
-  minit := fun label => { keys := [], tuples := [], preds := [], ghost := [], prev := none,
-                          start := (kvNat? (words label) "start").getD 100 }
+  minit := fun label => monInit ((kvNat? (words label) "start").getD 100)
   mon := check
 
 end OZ.Drv.C08
